@@ -59,15 +59,27 @@ def rules(t):
     sends = list(t.calls(r"RenetClient::send_message", b))
     for c in sends:
         r.site(c)
-        if "values_mut" not in fmt(t.arg(c, 0)): r.bad("all", c, "broadcast does not iterate connections.values_mut()")
+        recv_ = fmt(t.arg(c, 0))
+        if "values_mut" not in recv_ and not re.search(r"iter_mut\(&\**P1\(self\)\.connections\)", recv_): r.bad("all", c, "broadcast does not iterate connections.values_mut()")
         if "clone" not in fmt(t.arg(c, 2)): r.bad("clone", c, "broadcast does not send a copy of the message")
         # no conditional skip inside the loop: the send block is reached from the Some-edge unconditionally
-        conds = [br for br in t.branches(b) if br["kind"] == "bool" and br["bb"] in b.reach and "log" not in fmt(br["raw"])]
+        def static_cmp(br):
+            """a comparison of two values that are visibly built as different variants (`None == Some(id)` after the shared helper of
+            broadcast_message / broadcast_message_except was inlined with `except = None`): decided at compile time, not a skip"""
+            cnd = br.get("cond") or ()
+            if len(cnd) < 4 or cnd[0] != "cmp" or cnd[1] not in ("Eq", "Ne"): return False
+            a_, b_ = strip(cnd[2]), strip(cnd[3])
+            return all(isinstance(x, tuple) and x and x[0] == "aggr" for x in (a_, b_)) and a_[2] != b_[2] and {a_[2], b_[2]} == {"None", "Some"}
+        conds = [br for br in t.branches(b) if br["kind"] == "bool" and br["bb"] in b.reach and "log" not in fmt(br["raw"]) and not static_cmp(br)]
         if conds: r.bad("skip", c, "broadcast_message contains a conditional skip")
     if not sends: r.bad("missing", None, "broadcast_message does not call send_message")
     e = t.fn("RenetServer::broadcast_message_except")
     sends = list(t.calls(r"RenetClient::send_message", e))
-    cm = list(t.find_cmp(e, lambda a: isinstance(strip(a), tuple) and strip(a)[0] == "param" and "except" in (strip(a)[2] or ""), lambda b_: "iter_mut" in fmt(b_) or "IterMut" in fmt(b_), None))
+    def unsome(o):
+        """`Some(x)` built on the spot -> x (the shared helper takes `Option<ClientId>` and compares `except == Some(id)`)"""
+        o2 = strip(o)
+        return o2[3][0] if isinstance(o2, tuple) and o2 and o2[0] == "aggr" and o2[2] == "Some" and len(o2[3]) == 1 else o
+    cm = list(t.find_cmp(e, lambda a: isinstance(strip(unsome(a)), tuple) and strip(unsome(a))[0] == "param" and "except" in (strip(unsome(a))[2] or ""), lambda b_: "iter_mut" in fmt(b_) or "IterMut" in fmt(b_), None))
     for c in sends:
         r.site(c)
         ok = False
